@@ -39,4 +39,4 @@ def run(ctx):
                 ctx.distinct.add(("id", c["case"], x["rank"]))
         for c in list(idx.values())[:1]:
             ctx.sample({"kind": "ids", "case": c["case"], "first_calls": sorted([(x["rank"], x["g"], x["k"], x["life"]) for x in c["calls"]])[:12]})
-    stages.mgr_family(ctx, ["C18."], ["all"], lambda s: s["stim"]["msg"]["kind"] == "New" and s["t"]["hasPre"], quick_n=3000, invariants=["M_C18_Dup"], sims=False)
+    stages.mgr_family(ctx, ["C18."], ["all"], lambda s: s["stim"]["msg"]["kind"] == "New" and s["t"]["hasPre"], quick_n=3000, invariants=["M_C18_Dup"], sims=False, keep=lambda l: any(k in l for k in ('"kind":"New"',)))
